@@ -63,7 +63,14 @@ impl Case {
                 for (si, p) in self.sites.iter().enumerate() {
                     s[*p] = allele_base(self.ancestor[*p], self.alleles[si][i]);
                 }
-                let mut contigs: Vec<Vec<u8>> = if self.cut == 0 { vec![s] } else { vec![s[..self.cut].to_vec(), s[self.cut..].to_vec()] };
+                // two contigs: a record too short to hold a k-mer sits between them in every second sample
+                let mut contigs: Vec<Vec<u8>> = if self.cut == 0 {
+                    vec![s]
+                } else if i % 2 == 0 {
+                    vec![s[..self.cut].to_vec(), self.ancestor[..(self.k - 1) / 2].to_vec(), s[self.cut..].to_vec()]
+                } else {
+                    vec![s[..self.cut].to_vec(), s[self.cut..].to_vec()]
+                };
                 if self.flip[i] {
                     contigs = contigs.iter().map(|c| rc_str(c)).collect();
                 }
